@@ -251,33 +251,62 @@ fn synthetic(seed: u64, i: usize, tier: Tier) -> Outcome {
     let first = *r.pick(&[1u8, 1, 2, 5]);
     let paths = r.range(1, 6) as u8;
     let len = r.range(1, 8) as u8;
-    let mut state = State::new(StateConfig { max_samples: 4, max_flows });
-    let mut m = FlowMonitor::new(first, max_flows, 4);
-    let site = format!("synthetic/maxflows{max_flows}");
+    // one history in three goes through a real Tracer (its own state construction, and a
+    // clear() in the middle of the history: the limits must be the configured ones afterwards too)
+    let via_tracer = i % 3 == 0;
+    let max_samples = if via_tracer { *r.pick(&[2usize, 4, 9]) } else { 4 };
+    let tracer = if via_tracer {
+        trippy_core::Builder::new(IpAddr::V4(Ipv4Addr::new(10, 200, 0, 1))).max_flows(max_flows).max_samples(max_samples).build().ok()
+    } else {
+        None
+    };
+    let clear_at = r.range(5, 60) as usize;
+    let mut state = State::new(StateConfig { max_samples, max_flows });
+    let mut m = FlowMonitor::new(first, max_flows, max_samples);
+    let site = format!("synthetic/maxflows{max_flows}{}", if via_tracer { "/tracer" } else { "" });
     let replay = json!({"how": format!("vcheck C15 --seed {seed} --only s{i}"), "scenario": format!("s{i}")});
     let t0 = SystemTime::UNIX_EPOCH + Duration::from_secs(1_700_000_000);
     let rounds = tier.pick(100, 300);
     for k in 0..rounds {
         let path = r.below(u64::from(paths)) as u8;
         let n = if r.chance(1, 4) { r.range(1, u64::from(len)) as u8 } else { len };
-        let probes: Vec<ProbeStatus> = (0..n)
-            .map(|j| {
-                let ttl = first + j;
-                let p = probe_new(Sequence(1000 + u16::from(j)), TraceId(1), Port(1), Port(2), TimeToLive(ttl), RoundId(k), t0, Flags::empty());
-                if r.chance(1, 5) {
-                    ProbeStatus::Awaited(p)
-                } else if r.chance(1, 20) {
-                    ProbeStatus::Failed(synth::failed(p))
-                } else {
-                    // paths share some hops and differ in others
-                    let branch = if j % 2 == 1 { path } else { 0 };
-                    ProbeStatus::Complete(synth::complete(p, IpAddr::V4(Ipv4Addr::new(10, ttl, branch, 1)), t0 + Duration::from_millis(3), IcmpPacketType::NotApplicable, None, None, None, None))
-                }
-            })
-            .collect();
+        let skipped_before: Option<u8> = if n > 1 && r.chance(1, 6) { Some(r.range(1, u64::from(n) - 1) as u8) } else { None };
+        let mut probes: Vec<ProbeStatus> = Vec::new();
+        for j in 0..n {
+            // a TCP style re-issue: an abandoned (skipped) slot precedes the probe of the same ttl
+            if skipped_before == Some(j) {
+                probes.push(ProbeStatus::Skipped);
+            }
+            let ttl = first + j;
+            let p = probe_new(Sequence(1000 + u16::from(j)), TraceId(1), Port(1), Port(2), TimeToLive(ttl), RoundId(k), t0, Flags::empty());
+            probes.push(if r.chance(1, 5) {
+                ProbeStatus::Awaited(p)
+            } else if r.chance(1, 20) {
+                ProbeStatus::Failed(synth::failed(p))
+            } else {
+                // paths share some hops and differ in others
+                let branch = if j % 2 == 1 { path } else { 0 };
+                ProbeStatus::Complete(synth::complete(p, IpAddr::V4(Ipv4Addr::new(10, ttl, branch, 1)), t0 + Duration::from_millis(3), IcmpPacketType::NotApplicable, None, None, None, None))
+            });
+        }
         let largest = first + n - 1;
         let round = Round::new(&probes, TimeToLive(largest), CompletionReason::TargetFound);
-        if let Err(p) = guarded(|| state.update_from_round(&round)) {
+        let applied = match &tracer {
+            Some(t) => guarded(|| {
+                if k == clear_at {
+                    t.clear();
+                }
+                t.verif_apply_round(&round);
+                t.snapshot()
+            })
+            .map(|s| state = s),
+            None => guarded(|| state.update_from_round(&round)),
+        };
+        if tracer.is_some() && k == clear_at {
+            m = FlowMonitor::new(first, max_flows, max_samples);
+            o.count("histories_with_a_clear_in_the_middle", 1);
+        }
+        if let Err(p) = applied {
             o.violate("flow_queries_never_panic", format!("{site}|update|{}", p.site()), format!("round {k}: panic at {}:{}: {}", p.file, p.line, p.message), replay.clone());
             return o;
         }
@@ -296,7 +325,7 @@ fn synthetic(seed: u64, i: usize, tier: Tier) -> Outcome {
 
 pub fn run(tier: Tier, seed: u64, only: Option<String>) -> i32 {
     let mut rep = Report::new("C15", "exploration", tier, seed);
-    rep.rule = "e2e history = UDP Paris / Dublin cell x ECMP world (2..8 branches at 1..4 levels, silent and lossy hops) x first-ttl in {1,2,4} x max-flows in {1,2,3,8,64} x transient send failures, 60..200 rounds with a snapshot after each; synthetic history = 100..300 rounds over 1..6 partially overlapping paths with awaited and failed probes and varying lengths through State::update_from_round; an online monitor checks after every round: ids dense from 1 and <= max, every previously issued flow only extended, the round counted under at most one flow whose entries agree by position (ttl - first-ttl) with every responder, matching rounds still attributed at capacity, default flow counts every round, and each flow's statistics equal the re-aggregation of exactly its rounds; distinct by (cell, max-flows, flows seen, first-ttl, distance)".into();
+    rep.rule = "e2e history = UDP Paris / Dublin cell x ECMP world (2..8 branches at 1..4 levels, silent and lossy hops) x first-ttl in {1,2,4} x max-flows in {1,2,3,8,64} x transient send failures, 60..200 rounds with a snapshot after each; synthetic history = 100..300 rounds over 1..6 partially overlapping paths with awaited, failed and skipped (re-issued) probes and varying lengths through State::update_from_round (one in three through a real Tracer with a clear() in the middle of the history); an online monitor checks after every round: ids dense from 1 and <= max, every previously issued flow only extended, the round counted under at most one flow whose entries agree by position (ttl - first-ttl) with every responder, matching rounds still attributed at capacity, default flow counts every round, and each flow's statistics equal the re-aggregation of exactly its rounds; distinct by (cell, max-flows, flows seen, first-ttl, distance)".into();
     rep.assumptions = vec![
         "position in a flow = ttl - first-ttl; responders beyond the round's path length are not part of the flow".into(),
         "'matches an existing flow' = no position where the flow records a different known address than the round".into(),
